@@ -87,6 +87,22 @@ def fill(claim, na):
           "scorer equal to its definition, children pushed only with an interior point, split index interior and farthest.",
           "Integer indices; ties among equal priorities and rounding-noise clause not decided.",
           "DESIGN.md 3/C05")
-    for pid in ["C02", "C06", "C07", "C08", "C09", "C10", "C12", "C14",
+    claim("C06", "other", "sibling alignment of the two loop transfer functions + guard normalisation + event ordering + call-argument flow",
+          "Decides the structural part for all inputs: the _grdp step equals the _rdp_fixed step (same split, pushes, priorities, "
+          "retained index, priority sort) apart from the budget counter and the global-cost statements, so both generate the same "
+          "refinement sequence; the continuation test is 'cost < t' (R2) / 'cost >= t' identically before the loop and after each "
+          "insertion; the cost is evaluated on the inserted, sorted set with one per-call cache; mp_grdp continues with budget "
+          "min_points - len(reduced) on the same stack/reduced iff the result is too short; min_point_rdp visits thresholds in "
+          "descending order, returns the first result with >= min_points, falls back to rdp_fixed(points, min_points).",
+          "Equality with an independently computed S_k on concrete curves is behavioural and not decided.",
+          "DESIGN.md 3/C06")
+    claim("C07", "other", "gated value numbering of the nested mapping loops (guards, carried-state updates, emission) + linear-form agreement of the two removed-table builders",
+          "Decides the structural part for all inputs: mapping() consumes rows strictly before reduced[i], accumulates their "
+          "dropped counts in a sum carried across queries, emits int(i + count) once per query; sorted=False permutes rows by "
+          "argsort of the left column; rdp() and compute_removed_points() build rows with the same linear form next-left-1. "
+          "mapping(I) == reduced[I] then follows by a recorded induction; it is not itself decided.",
+          "Positions ascending; rows cover consecutive retained pairs.",
+          "DESIGN.md 3/C07")
+    for pid in ["C02", "C07", "C08", "C09", "C10", "C12", "C14",
                 "C18"]:
         na(pid, PENDING)
